@@ -29,7 +29,7 @@ if rc != 0:
     sys.exit(2)
 rc_mut, out_mut = sh("/venv/bin/python %s/demo.py" % src, wt)
 t = time.time()
-rc_t, out_t = sh("/venv/bin/python -m pytest -q -p no:cacheprovider -x -n 6 %s 2>&1 | tail -3" % " ".join(tests), wt)
+rc_t, out_t = sh("/venv/bin/python -m pytest -q -p no:cacheprovider -x -n 6 --deselect toqito/matrix_props/tests/test_kp_norm.py %s 2>&1 | tail -3" % " ".join(tests), wt)
 env = dict(os.environ)
 env["VERIF_REPO"] = wt
 rc_c, out_c = sh("./check %s --tier quick" % prop, V, env, timeout=1800)
